@@ -190,7 +190,12 @@ Definition rep_fin (mnv : option nat) (s : st) (acc : list value) : st :=
   end.
 Definition at_max (mx : option nat) (k : nat) := match mx with Some m => Nat.eqb k m | None => false end.
 
+(* As shipped the bound is tested only AFTER an element has been appended, so a
+   run-time upper bound of 0 never stops the loop (`"a"{n}` with n = 0 matches
+   greedily).  The repaired variant tests it at the loop head as well. *)
 Fixpoint rep_loop (k : nat) (e : expr) (mn : bound) (mnv mxv : option nat) (s : st) (acc : list value) : out :=
+  if list_fixed && at_max mxv (length acc)
+  then Done (rep_fin (if mn_zero mn then None else mnv) s acc) else
   match k with
   | 0 => OutOfFuel
   | S k =>
